@@ -258,10 +258,14 @@ CLAIMS["C01"] = dict(
         "C01_generated_parser_implements_the_source_grammar (Proofs/GenSem.v): for every grammar rs and module M with the DECIDABLE "
         "reads_back_as rs M = true, whenever a rule's method returns, that is what the reference semantics of rs prescribes; the same with "
         "the packrat cache on (via C04 cache transparency), and a SyntaxError raised by the parse is a forced-item error of rs "
-        "(C01_syntax_errors_are_forced_errors_of_the_source_grammar, uncached and cached). The "
+        "(C01_syntax_errors_are_forced_errors_of_the_source_grammar, uncached and cached). (4) With EXPLICIT actions "
+        "(C01_generated_parser_implements_the_source_grammar_with_explicit_actions): the source semantics' actions interpreted as "
+        "Sem/PegEval.v documents (substituted text, documented item names), under two stated hypotheses on the action interpreter "
+        "(independence of earlier alternatives' leftover locals; never a falsy value -- the C05 finding), for every module with the "
+        "decidable reads_back_with_actions rs M = true (floor of 8 shapes; coverage count in the evidence). The "
         "condition is evaluated in Coq on the generator model's output for a floor of 21 action-free shapes (must hold) and for every "
-        "explored grammar (coverage count in the evidence; all explored action-free random grammars are inside). Partial: explicit "
-        "actions, left recursion, invalid_ passes, LOCATIONS, forced items over nullable or forced operands, and the completeness "
+        "explored grammar (coverage count in the evidence; all explored action-free random grammars are inside). Partial: "
+        "left recursion, invalid_ passes, LOCATIONS, a cut together with an action, forced items over nullable or forced operands, and the completeness "
         "direction (the parser returns whenever the semantics derives) are not theorems; for those the equality is machine-checked case "
         "by case. Known finding: lookahead over a forced item consumes.")
 CLAIMS["C19"] = dict(
